@@ -65,6 +65,8 @@ def shim():
         _shim = ctypes.CDLL(p)
         _shim.vsim_arm.argtypes = [ctypes.c_int, ctypes.c_char_p, ctypes.c_longlong]
         _shim.vsim_arm.restype = None
+        _shim.vsim_sync.argtypes = [ctypes.c_char_p]
+        _shim.vsim_sync.restype = None
     return _shim
 
 
@@ -153,6 +155,8 @@ class Node:
                 def report(obj):
                     data = ("A " + json.dumps(obj) + "\n").encode()
                     os.write(fd, data)
+
+                report.sync = lambda tag: shim().vsim_sync(tag.encode())
 
                 shim().vsim_arm(fd, prefix.encode(), clock_ns)
                 try:
